@@ -81,9 +81,12 @@ def minimize(
     config = TreeConfig(level_config, gsc, sprout_condition, options=options)
     hms_tree = DemeTree(config)
     hms_tree.run()
+    # With an evaluation budget the demes' own counters keep counting the requests that the cutoff wrapper refused,
+    # so the number of calls actually made to ``fun`` is read from the cutoff wrapper.
+    nfev = wrapped_function_problem.n_evaluations if maxfun else hms_tree.n_evaluations
     return OptimizeResult(
         x=hms_tree.best_individual.genome,
-        nfev=hms_tree.n_evaluations,
+        nfev=nfev,
         fun=hms_tree.best_individual.fitness,
         nit=hms_tree.metaepoch_count,
     )
